@@ -75,6 +75,9 @@ static bool with_ptee(const std::string& n, F&& f)
   if (n == "ptr") { f(tag<int*>{}); return true; }
   if (n == "arr4") { f(tag<int[4]>{}); return true; }
   if (n == "larr3") { f(tag<long[3]>{}); return true; }
+  if (n == "llarr3") { f(tag<long long[3]>{}); return true; }
+  if (n == "ullarr2x2") { f(tag<unsigned long long[2][2]>{}); return true; }
+  if (n == "sarr5") { f(tag<short[5]>{}); return true; }
   if (n == "ps") { f(tag<PS>{}); return true; }
   return false;
 }
